@@ -223,7 +223,16 @@ def judge(trace_module, events, work, nproc=NCPU, timeout=3600, consts="", strip
     os.makedirs(work, exist_ok=True)
     _stage(work, trace_module)
     nproc = max(1, min(nproc, (len(events) + 49) // 50))
-    chunks = [events[i::nproc] for i in range(nproc)]
+    # events of one case stay together and in order (trace specs with state, e.g. TraceHist, need that)
+    chunks = [[] for _ in range(nproc)]
+    slot = {}
+    for ev in events:
+        c = ev.get("cid")
+        if c not in slot:
+            slot[c] = len(slot) % nproc
+        chunks[slot[c]].append(ev)
+    chunks = [c for c in chunks if c]
+    nproc = len(chunks)
     cfg = "SPECIFICATION Spec\nINVARIANT Done\nPOSTCONDITION Post\nCHECK_DEADLOCK FALSE\n" + consts
     with open(os.path.join(work, trace_module + ".cfg"), "w") as f:
         f.write(cfg)
